@@ -40,45 +40,55 @@ def eval_in_state(sx: SX, cls: str, expr: str, state: State = None, module=None)
 
 def truth_table(paths, spec_dnf, ctx=None):
     """Finite-domain comparison of a boolean function given as code paths [(guards, bool)] with a
-    spec given as a DNF of guard conjunctions.  Atoms = distinct guard keys (kind, key); every
-    assignment of the atoms is enumerated (exhaustive).  Returns list of disagreeing assignments."""
-    atoms = []
+    spec given as a DNF of guard conjunctions.  Boolean atoms = distinct non-comparison guard keys;
+    every comparison guard `d rel 0` is read as a constraint on the sign of its canonical difference,
+    a three-valued variable shared by all guards about +-d.  Every assignment is enumerated
+    (exhaustive).  Returns (list of disagreeing assignments, variables)."""
+    import itertools
+    from .sx import _SIGNS, _FLIP
+    bools, diffs = [], []          # diffs: list of Rat representatives
 
-    def key(g):
-        return (g.kind, g.key if g.kind != 'cmp' else repr(g.rat))
+    def var_of(g):
+        if g.kind != 'cmp':
+            k = (g.kind, g.key)
+            if k not in bools:
+                bools.append(k)
+            return ('b', bools.index(k), g.pol)
+        for i, d in enumerate(diffs):
+            if d.eq(g.rat):
+                return ('s', i, frozenset(_SIGNS[g.key[0]]))
+            if d.eq(-g.rat):
+                return ('s', i, frozenset(_FLIP[x] for x in _SIGNS[g.key[0]]))
+        diffs.append(g.rat)
+        return ('s', len(diffs) - 1, frozenset(_SIGNS[g.key[0]]))
 
-    def add(g):
-        k = key(g)
-        if k not in atoms:
-            atoms.append(k)
-    for gs, _ in paths:
-        for g in gs:
-            add(g)
-    for conj in spec_dnf:
-        for g in conj:
-            add(g)
-    if len(atoms) > 12:
-        return None, atoms
+    cpaths = [([var_of(g) for g in gs], v) for gs, v in paths]
+    cspec = [[var_of(g) for g in conj] for conj in spec_dnf]
+    nvars = len(bools) + len(diffs)
+    if len(bools) + 2 * len(diffs) > 16:
+        return None, bools + [repr(d) for d in diffs]
 
-    def sat(gs, assign):
-        for g in gs:
-            want = g.pol if g.kind != 'cmp' else True
-            if assign[key(g)] != want:
+    def sat(cs, ba, sa):
+        for kind, i, want in cs:
+            if kind == 'b':
+                if ba[i] != want:
+                    return False
+            elif sa[i] not in want:
                 return False
         return True
     bad = []
-    n = 0
-    for bits in range(2 ** len(atoms)):
-        assign = {a: bool(bits >> i & 1) for i, a in enumerate(atoms)}
-        hits = [v for gs, v in paths if sat(gs, assign)]
-        if not hits:
-            continue        # infeasible combination for the code (e.g. contradictory cmp atoms)
-        n += 1
-        code = hits[0]
-        if any(h != code for h in hits):
-            bad.append((assign, 'ambiguous'))
-            continue
-        want = any(sat(conj, assign) for conj in spec_dnf)
-        if code != want:
-            bad.append((assign, f'code={code} spec={want}'))
-    return bad, atoms
+    for ba in itertools.product((False, True), repeat=len(bools)):
+        for sa in itertools.product('-0+', repeat=len(diffs)):
+            hits = [v for cs, v in cpaths if sat(cs, ba, sa)]
+            if not hits:
+                continue        # combination no code path covers (e.g. excluded by an earlier raise)
+            code = hits[0]
+            assign = {bools[i]: ba[i] for i in range(len(bools))}
+            assign.update({('sign', repr(diffs[i])[:80]): sa[i] for i in range(len(diffs))})
+            if any(h != code for h in hits):
+                bad.append((assign, 'ambiguous'))
+                continue
+            want = any(sat(conj, ba, sa) for conj in cspec)
+            if code != want:
+                bad.append((assign, f'code={code} spec={want}'))
+    return bad, bools + [repr(d)[:60] for d in diffs]
